@@ -317,6 +317,13 @@ func (s *transactionStore) Watch(ctx context.Context, ch chan<- configapi.Transa
 	s.mu.Unlock()
 
 	go func() {
+		// Whatever way this goroutine ends, keep draining the events the store may still be sending to it
+		defer func() {
+			go func() {
+				for range eventCh {
+				}
+			}()
+		}()
 		defer func() {
 			s.mu.Lock()
 			if options.transactionID != "" {
@@ -349,9 +356,14 @@ func (s *transactionStore) Watch(ctx context.Context, ch chan<- configapi.Transa
 						close(ch)
 						return
 					}
-					ch <- configapi.TransactionEvent{
+					select {
+					case ch <- configapi.TransactionEvent{
 						Type:        configapi.TransactionEvent_REPLAYED,
 						Transaction: *transaction,
+					}:
+					case <-ctx.Done():
+						close(ch)
+						return
 					}
 				}
 			} else {
@@ -377,9 +389,14 @@ func (s *transactionStore) Watch(ctx context.Context, ch chan<- configapi.Transa
 					transaction := entry.Value
 					transaction.Index = configapi.Index(entry.Index)
 					transaction.Version = uint64(entry.Version)
-					ch <- configapi.TransactionEvent{
+					select {
+					case ch <- configapi.TransactionEvent{
 						Type:        configapi.TransactionEvent_REPLAYED,
 						Transaction: *transaction,
+					}:
+					case <-ctx.Done():
+						close(ch)
+						return
 					}
 				}
 			}
@@ -398,10 +415,6 @@ func (s *transactionStore) Watch(ctx context.Context, ch chan<- configapi.Transa
 			case <-ctx.Done():
 			}
 			close(ch)
-			go func() {
-				for range eventCh {
-				}
-			}()
 			return
 		}
 	}()
